@@ -1,5 +1,5 @@
 (* C19/Driver.v — entry points for the correspondence run *)
-From RM Require Import C19.Model.
+From RM Require Import C19.Model C19.Pipeline.
 Open Scope Z_scope.
 
 Definition b2z (b : bool) : Z := if b then 1 else 0.
@@ -24,10 +24,13 @@ Definition run_try (a reg br : Z) (ctx : option (Z * list Z)) (kind : Z) (regs :
   : list (list Z) :=
   map out_flip (try_bit_flips a (if reg <? 0 then None else Some reg) (mk_br br) ctx (mk_regions kind regs) (mk_op op)).
 
+(* c: 0 x86, 1 amd64, 2 arm64, 3 another 64-bit cpu (ppc64) — runs the check REGENERATED from the source *)
+Definition mk_gcpu (c : Z) : gcpu :=
+  if c =? 0 then GX86 else if c =? 1 then GX86_64 else if c =? 2 then GArm64 else GPpc64.
 Definition run_check (c address : Z) (adj : Z) (adjv : Z) (op : Z) (ctx : option (Z * list Z))
            (iregs : list (Z * Z)) (kind : Z) (regs : list (Z * Z * Z)) : list (list Z) :=
-  map out_flip (check_for_bitflips (mk_cpu c) address
-                  (if adj =? 1 then AdjNonCanonical adjv else if adj =? 2 then AdjNullOffset else AdjNone)
+  map out_flip (check_src (mk_gcpu c) address
+                  (if adj =? 1 then GAdjNonCanonical adjv else if adj =? 2 then GAdjNullPointerWithOffset adjv else GAdjNone)
                   (mk_op op) ctx iregs (mk_regions kind regs)).
 
 (* crash address / memory operation of the synthesized exception record (Windows access
@@ -36,9 +39,51 @@ Definition p_address (os code nparams info1 excaddr : Z) : Z :=
   if (os =? 0) && ((code =? 3221225477) || (code =? 3221225478)) && (2 <=? nparams) then info1 else excaddr.
 Definition p_op (os code nparams info0 : Z) : Z :=
   if (os =? 0) && (code =? 3221225477) && (1 <=? nparams)
-  then (if info0 =? 0 then 1 else if info0 =? 1 then 2 else if info0 =? 8 then 3 else 0)
+  then g_memop_of_access info0
   else 0.
 Definition run_pipeline (c os code nparams info0 info1 excaddr : Z) (ctx : option (Z * list Z))
            (kind : Z) (regs : list (Z * Z * Z)) : list (list Z) :=
   run_check (if c =? 0 then 0 else if c =? 1 then 1 else 2)
             (p_address os code nparams info1 excaddr) 0 0 (p_op os code nparams info0) ctx [] kind regs.
+
+(* ---------------------------------------------------------------- Q cases: the whole path with a DECODED instruction
+   arch = MINIDUMP_SYSTEM_INFO.processor_architecture; os 0 = Windows, 1 = Linux; flags = exception_flags (si_code).
+   Glue outside the anchored code (minidump crate: get_crash_address, CrashReason::from_exception), hand-written
+   and validated by the correspondence run only. *)
+Definition q_os (os : Z) : gos := if os =? 0 then OsWindows else OsLinux.
+Definition q_address (c : gcpu) (os code nparams info1 excaddr : Z) : Z :=
+  let a := p_address os code nparams info1 excaddr in
+  match pointer_width c with WBits32 => a mod 4294967296 | _ => a end.
+Definition q_reason (os code flags nparams info0 : Z) : reason :=
+  if os =? 0 then
+    (if (code =? 3221225477) && (1 <=? nparams) && ((info0 =? 0) || (info0 =? 1) || (info0 =? 8))
+     then RWinAccessViolation info0 else ROther)
+  else if (code =? 11) && negb ((1 <=? flags) && (flags <=? 4)) then RLinuxGeneral 11 flags
+  else if (code =? 7) && negb ((1 <=? flags) && (flags <=? 5)) then RLinuxGeneral 7 flags
+  else ROther.
+
+Definition mk_operand (e : Z * Z * Z * Z) : memoperand :=
+  let '(b, i, sc, d) := e in
+  {| mo_base := if b <? 0 then None else Some b; mo_index := if i <? 0 then None else Some i;
+     mo_scale := if sc <? 0 then None else Some sc; mo_disp := Some d |}.
+
+Definition out_adj (a : gadj) : list Z :=
+  match a with GAdjNone => [0] | GAdjNonCanonical v => [1; v] | GAdjNullPointerWithOffset o => [2; o] end.
+
+(* dec: None = no analysis (no instruction bytes / unsupported cpu); Some (lea, operands) = decoded instruction *)
+Definition run_q (arch os code flags nparams info0 info1 excaddr : Z) (ctx : option (list Z))
+           (dec : option (bool * list (Z * Z * Z * Z))) (kind : Z) (regs : list (Z * Z * Z))
+  : list Z * list (list Z) :=
+  let c := cpu_of_arch arch in
+  let address := q_address c os code nparams info1 excaddr in
+  let r := q_reason os code flags nparams info0 in
+  let pc := option_map (fun vals : list Z => {| pc_size := 8; pc_regs := List.combine (map Z.of_nat (seq 0 (length vals))) vals |}) ctx in
+  let analysis := fun x =>
+    if gcpu_eqb c GX86_64 then
+      match dec with
+      | Some (lea, ops) => analyze_dinstr {| di_lea := lea; di_memsize := true; di_ops := map mk_operand ops |} x
+      | None => None
+      end
+    else None in
+  (out_adj (pipeline_adj analysis c (q_os os) r address pc),
+   map out_flip (pipeline analysis c (q_os os) r address pc (mk_regions kind regs))).
